@@ -188,7 +188,7 @@ def run_interpolators(ctx):
                                 if not (abs(va[k] - v1) <= 1e-13 * max(1.0, abs(v1))):
                                     ctx.violation(comp, cfgb, 'array!=single', point=p, got=va[k], ref=v1)
                                     break
-                            out = np.full(arr_sorted.shape[1], np.nan, dtype=va.dtype)
+                            out = np.full(arr_sorted.shape[1], complex(np.nan, np.nan) if va.dtype.kind == 'c' else np.nan, dtype=va.dtype)
                             r = interp(arr_sorted if nd > 1 else arr_sorted[0], out=out)
                             if not np.array_equal(out, va, equal_nan=True):
                                 ctx.violation(comp, cfgb, 'out=!=oop')
@@ -453,6 +453,50 @@ def run_resampling(ctx):
                 ctx.violation('linear_deform', cfg, 'raises:' + type(e).__name__, message=str(e)[:200])
 
 
+def run_lindeform_ops(ctx):
+    """LinDeformFixedDisp(displacement, interp=...) and the operators derived from it: op(f) is f interpolated with the given
+    per-axis schemes at x + v(x); op.inverse does the same with -v and the *same* schemes (documented approximation of the
+    inverse map, exact statement about what it evaluates); op.adjoint = exp(-div v) * op.inverse."""
+    from odl.deform import LinDeformFixedDisp
+    rng = ctx.rng('lindeform-ops')
+    idx = 30000
+    for nd in (1, 2):
+        for schemes in [s_ for s_ in itertools.product(['nearest', 'linear'], repeat=nd)]:
+            idx += 1
+            if not ctx.mine(idx):
+                continue
+            sp = odl.uniform_discr([0.0] * nd, [1.0, 2.0][:nd], (6, 5)[:nd])
+            interp = schemes[0] if len(set(schemes)) == 1 else list(schemes)
+            cfg = '%dd;%s' % (nd, 'mixed' if len(set(schemes)) > 1 else schemes[0])
+            ctx.case('LinDeformFixedDisp;' + cfg, 0)
+            try:
+                h = sp.cell_sides
+                # a quarter to 0.4 cells: nearest and linear give different answers
+                disp = sp.tangent_bundle.element([sp.element(rng.uniform(0.2, 0.4, size=sp.shape) * rng.choice([-1, 1], size=sp.shape) * h[a]) for a in range(nd)])
+                op = LinDeformFixedDisp(disp, interp=interp)
+                templ = util.rand_element(sp, rng)
+                f = np.asarray(templ)
+                cvs = [np.asarray(cv) for cv in sp.grid.coord_vectors]
+                for oname, o, sign in (('LinDeformFixedDisp', op, +1), ('LinDeformFixedDisp.inverse', op.inverse, -1)):
+                    ctx.ev('resampling')
+                    res = np.asarray(o(templ))
+                    for ix in np.ndindex(*sp.shape):
+                        pnt = [cvs[a][ix[a]] + sign * np.asarray(disp[a])[ix] for a in range(nd)]
+                        if any(x < cv[0] or x > cv[-1] for x, cv in zip(pnt, cvs)) and 'nearest' in schemes:
+                            continue
+                        acc = ref_vals(f, cvs, pnt, schemes)
+                        if not any(abs(res[ix] - a) <= 1e-12 * max(1.0, np.abs(f).max()) for a in acc):
+                            ctx.violation(oname, cfg, 'value!=multilinear-model', point=pnt, got=res[ix], ref=acc[0])
+                            break
+                ctx.ev('resampling')
+                jac = np.exp(-np.asarray(odl.Divergence(domain=disp.space, method='forward', pad_mode='symmetric')(disp)))
+                adj = np.asarray(op.adjoint(templ))
+                if not np.allclose(adj, jac * np.asarray(op.inverse(templ)), rtol=1e-12, atol=1e-12):
+                    ctx.violation('LinDeformFixedDisp.adjoint', cfg, 'value!=jacobian*inverse')
+            except Exception as e:
+                ctx.violation('LinDeformFixedDisp', cfg, 'raises:' + type(e).__name__, message=str(e)[:200])
+
+
 def run(ctx):
     ctx.note('rule', 'interpolation: one case = (interpolator kind, per-axis scheme tuple, dimension, uniform/non-uniform, '
                      'value dtype, repetition) evaluated at 7 point kinds and through 3 calling conventions; sampling: one '
@@ -470,6 +514,7 @@ def run(ctx):
     run_interpolators(ctx)
     run_sampling(ctx)
     run_resampling(ctx)
+    run_lindeform_ops(ctx)
     if ctx.shard == 0:
         run_nonnumeric(ctx)
     cov.disarm()
